@@ -1,0 +1,28 @@
+//go:build verif
+
+package carddav
+
+// VerifC15Values returns, for the verification harness in /verif (build tag
+// "verif" only), constructors of empty values of this package's unexported
+// XML structures, by type name. It adds no behaviour.
+func VerifC15Values() map[string]func() interface{} {
+	return map[string]func() interface{}{
+		"addressbookHomeSet":     func() interface{} { return &addressbookHomeSet{} },
+		"addressbookDescription": func() interface{} { return &addressbookDescription{} },
+		"supportedAddressData":   func() interface{} { return &supportedAddressData{} },
+		"addressDataType":        func() interface{} { return &addressDataType{} },
+		"maxResourceSize":        func() interface{} { return &maxResourceSize{} },
+		"addressbookQuery":       func() interface{} { return &addressbookQuery{} },
+		"filter":                 func() interface{} { return &filter{} },
+		"propFilter":             func() interface{} { return &propFilter{} },
+		"textMatch":              func() interface{} { return &textMatch{} },
+		"paramFilter":            func() interface{} { return &paramFilter{} },
+		"limit":                  func() interface{} { return &limit{} },
+		"addressbookMultiget":    func() interface{} { return &addressbookMultiget{} },
+		"addressDataReq":         func() interface{} { return &addressDataReq{} },
+		"prop":                   func() interface{} { return &prop{} },
+		"addressDataResp":        func() interface{} { return &addressDataResp{} },
+		"reportReq":              func() interface{} { return &reportReq{} },
+		"mkcolReq":               func() interface{} { return &mkcolReq{} },
+	}
+}
